@@ -121,6 +121,13 @@ def make_cases(tier):
             A.stanza(qm, [A.node(sv("rb")), A.attrn(sv("rb"), A.attr("r", reader(sv("val"))))]),
             A.stanza(qm, [A.node(sv("rc")), A.attrn(sv("rc"), A.attr("plain", sv("val")))]),
         ]), 2 + j % 2, "lazy"))
+    # a name defined once on most nodes and twice on a few (by a stanza with a predicate): a duplicate in every order
+    for j, pred in enumerate(['(#match? @id "^[a-c]$")', '(#eq? @id "x")', '(#match? @id "^[f-z]")']):
+        f = A.file([A.stanza(q_id, [A.let(A.svar(A.cap("id"), "v"), A.string("first"))]),
+                    A.stanza("((identifier) @id %s) " % pred, [A.let(A.svar(A.cap("id"), "v"), A.string("second"))]),
+                    A.stanza(q_id, [A.node(A.var("n")), A.attrn(A.var("n"), A.attr("v", A.svar(A.cap("id"), "v")))])])
+        for src in (2, 3, 7, 9, 17):
+            base.append(A.case("c08dup-%d-%d-lazy" % (j, src), f, src, "lazy"))
     cases = []
     maxn = 3 if tier == "quick" else 4
     for c in base:
